@@ -151,6 +151,13 @@ def proof_obligations(prop_modules, extra_modules=()):
         return False, len(thms), len(thms) - len(foreign), axioms, "foreign axioms: %r" % foreign
     if not ok:
         return False, len(thms), len(axioms), axioms, "axiom audit failed:\n" + out[-3000:]
+    # thorough tier: Lean's independent re-checker replays the compiled declarations of the property modules through the kernel
+    if os.environ.get("VERIF_TIER_EFFECTIVE") == "thorough":
+        for m in prop_modules:
+            rc, out = sh(["lake", "env", "leanchecker", m], cwd=LEAN_DIR)
+            if rc != 0:
+                return False, len(thms), 0, axioms, "leanchecker rejected %s:\n%s" % (m, out[-3000:])
+        log += "\nleanchecker: %s re-checked" % ", ".join(prop_modules)
     return True, len(thms), len(thms), axioms, log + "\n(%.1fs)" % (time.time() - t0)
 
 
